@@ -30,8 +30,8 @@ ASSUMPTIONS = [
     "warnings are allowed; only exceptions and values are judged",
 ]
 SHARDS = {"quick": 12, "thorough": 14}
-FLOORS = {"quick": {"damaged_loads": 15000, "suffix_loads": 1000, "memory_damaged_calls": 150, "files": 150},
-          "thorough": {"damaged_loads": 300000, "suffix_loads": 20000, "memory_damaged_calls": 3000, "files": 3000}}
+FLOORS = {"quick": {"aligned_files": 30, "short_read_loads": 1000, "damaged_loads": 15000, "suffix_loads": 1000, "memory_damaged_calls": 150, "files": 150},
+          "thorough": {"aligned_files": 60, "short_read_loads": 20000, "damaged_loads": 300000, "suffix_loads": 20000, "memory_damaged_calls": 3000, "files": 3000}}
 EXHAUSTIVE = {"quick": False, "thorough": False}
 
 _B = {}
@@ -60,6 +60,14 @@ def cases(tier, seed):
     m = 60 if tier == "quick" else 1200
     for i in range(m):
         yield dict(i=i, kind="memory")
+    # compressed files whose length sits at chosen residues modulo the 8192-byte read block (the checksum trailer alone
+    # in the last block, the stream ending exactly on a block boundary, ...)
+    k = 0
+    for method in ("zlib", "gzip"):
+        for residue in (0, 1, 2, 3, 4, 5, 7, 8, 9, 12, 8190, 8191):
+            for blocks in ((1, 3) if tier == "quick" else (1, 2, 3, 9)):
+                yield dict(i=k, kind="aligned", method=method, residue=residue, blocks=blocks)
+                k += 1
 
 
 def gen_file(rng):
@@ -90,16 +98,16 @@ def gen_file(rng):
     return obj, bio.getvalue(), dict(object=label, compress=compress, protocol=protocol)
 
 
-def guarded_load(raw, cpu_s, desc=None):
+def guarded_load(raw, cpu_s, desc=None, short=None):
     """('ok', obj) | ('exc', text) | ('exhausted', text)"""
     import joblib
     lb, cpu = _B["lb"], _B["cpu"]
-    lb.arm(20000 + 200 * len(raw))
+    lb.arm(20000 + 200 * len(raw) * (1 if short is None else max(1, 64 // short)))
     cpu.arm(cpu_s)
     try:
         with warnings.catch_warnings():
             warnings.simplefilter("ignore")
-            return "ok", joblib.load(io.BytesIO(raw))
+            return "ok", joblib.load(io.BytesIO(raw) if short is None else ShortReader(raw, short))
     except MemoryError as e:
         return "exhausted", f"MemoryError under a 2 GiB cap: {e}"
     except budget.StepBudgetExceeded as e:
@@ -120,12 +128,74 @@ def method_of(raw):
     return "raw"
 
 
+class ShortReader(io.RawIOBase):
+    """a legal raw stream that returns at most k bytes per read()"""
+
+    def __init__(self, data, k):
+        self.b = io.BytesIO(data)
+        self.k = k
+
+    def readable(self):
+        return True
+
+    def seekable(self):
+        return True
+
+    def read(self, n=-1):
+        if n is None or n < 0:
+            return self.b.read()
+        return self.b.read(min(n, self.k))
+
+    def readinto(self, buf):
+        d = self.b.read(min(len(buf), self.k))
+        buf[:len(d)] = d
+        return len(d)
+
+    def seek(self, off, whence=0):
+        return self.b.seek(off, whence)
+
+    def tell(self):
+        return self.b.tell()
+
+
+def aligned_file(rng, method, residue, blocks):
+    """a valid file of exactly blocks*8192 + residue bytes (mod 8192) holding one incompressible bytes object"""
+    import joblib
+    target = blocks * 8192 + residue
+    n = max(target - 60, 1)
+    best = None
+    for _ in range(40):
+        obj = rng.randbytes(n)
+        bio = io.BytesIO()
+        joblib.dump(obj, bio, compress=(method, 1))
+        L = len(bio.getvalue())
+        if L % 8192 == residue % 8192 and L // 8192 >= blocks - 1:
+            return obj, bio.getvalue()
+        diff = target - L
+        if diff == 0:
+            return obj, bio.getvalue()
+        n = max(1, n + diff)
+        best = (obj, bio.getvalue())
+    return None
+
+
 def run_case(case, ctx):
     if case["kind"] == "memory":
         return run_memory(case, ctx)
-    rng = harness.rng_for(ctx.seed, ID, "file", case["i"])
-    obj, raw, desc = gen_file(rng)
-    other = gen_file(rng)[1]
+    if case["kind"] == "aligned":
+        rng = harness.rng_for(ctx.seed, ID, "aligned", case["i"])
+        made = aligned_file(rng, case["method"], case["residue"], case["blocks"])
+        if made is None:
+            ctx.count("aligned_files_not_hit")
+            return
+        obj, raw = made
+        other = gen_file(rng)[1]
+        desc = dict(object=f"bytes[{len(obj)}]", compress=(case["method"], 1), protocol=None, aligned=dict(len=len(raw), mod8192=len(raw) % 8192))
+        ctx.count("aligned_files")
+    else:
+        rng = harness.rng_for(ctx.seed, ID, "file", case["i"])
+        obj, raw, desc = gen_file(rng)
+        other = gen_file(rng)[1]
     n = len(raw)
     t0 = time.process_time()
     st, back = guarded_load(raw, 60)
@@ -152,9 +222,11 @@ def run_case(case, ctx):
         cuts = sorted(c for c in cuts if 0 <= c < n)
     reported = set()
 
-    def judge(kind, damage, data):
+    def judge(kind, damage, data, short=None):
         ctx.evaluated()
-        st, res = guarded_load(data, cpu_s)
+        st, res = guarded_load(data, cpu_s, short=short)
+        if short is not None:
+            ctx.count("short_read_loads")
         ctx.count("damaged_loads")
         ctx.sig((harness.h(raw.hex()[:4000] + str(n), 10), kind, damage))
         key = None
@@ -181,7 +253,14 @@ def run_case(case, ctx):
     for name, suf in sufs.items():
         judge("extended", name, raw + suf)
         ctx.count("suffix_loads")
-    if case["i"] % 60 == 0:
+    # the same through a stream that delivers at most k bytes per read (legal for a raw stream)
+    if meth != "raw" or rng.random() < 0.3:
+        for k in ([1, 13, 8191] if n <= 30000 else [4096, 8191]):
+            judge("undamaged-short-reads", f"k={k}", raw, short=k)
+            judge("extended-short-reads", f"k={k}+4-junk", raw + b"junk", short=k)
+            if n > 8:
+                judge("truncated-short-reads", f"k={k},cut={n - 3}", raw[:n - 3], short=k)
+    if case["i"] % 60 == 0 or case["kind"] == "aligned" and case["i"] % 11 == 0:
         ctx.sample(dict(desc, truncations=len(cuts), suffixes=sorted(sufs)))
 
 
